@@ -40,6 +40,7 @@ type RecAppender struct {
 	recs    []Rec
 	started int
 	stopped int
+	late    int           // deliveries that arrived after Stop
 	Gate    chan struct{} // when non-nil every delivery first receives from Gate
 	Entered chan int64    // when non-nil the id is sent before waiting on Gate
 }
@@ -142,6 +143,9 @@ func (a *RecAppender) Append(e *log.Event) {
 	}
 	a.mu.Lock()
 	a.recs = append(a.recs, r)
+	if a.stopped > 0 {
+		a.late++
+	}
 	a.mu.Unlock()
 }
 
@@ -151,7 +155,17 @@ func (a *RecAppender) Write(b []byte) {
 	a.wait(r.ID)
 	a.mu.Lock()
 	a.recs = append(a.recs, r)
+	if a.stopped > 0 {
+		a.late++
+	}
 	a.mu.Unlock()
+}
+
+// Late returns how many deliveries arrived after the appender had been stopped.
+func (a *RecAppender) Late() int {
+	a.mu.Lock()
+	defer a.mu.Unlock()
+	return a.late
 }
 
 // Recs returns a copy of what was recorded so far.
